@@ -67,7 +67,7 @@ def user_edit(rng, ws, files, pool, allow_kind_swaps, in_place_ok):
             dirs = sorted({k[:i] for k in files for i in range(1, len(k))})
             base = rng.choice([()] + dirs)
             k = (*base, gen.name(rng, odd=0.2))
-            if k in files or any(f[: len(k)] == k for f in files):
+            if k in files or any(f[: len(k)] == k for f in files) or os.path.lexists(os.path.join(ws, *k)):
                 continue
             data = rng.choice(pool) if rng.random() < 0.4 else gen.small_content(rng) + b"user"
             p = os.path.join(ws, *k)
@@ -113,11 +113,6 @@ def user_edit(rng, ws, files, pool, allow_kind_swaps, in_place_ok):
             import shutil
 
             p = os.path.join(ws, *dk)
-            for sub, _dn, fn in os.walk(p):
-                for f in fn:
-                    fp = os.path.join(sub, f)
-                    if not os.path.islink(fp):
-                        pass
             shutil.rmtree(p)
             for f in [f for f in files if f[: len(dk)] == dk]:
                 del files[f]
